@@ -2,6 +2,8 @@ import Lean.Data.Json
 import MetapypeModel.Model.Lex
 import MetapypeModel.Model.Validate
 import MetapypeModel.Model.Equal
+import MetapypeModel.Model.Forest
+import MetapypeModel.Model.Query
 import MetapypeModel.Gen.Rules
 import MetapypeModel.Gen.Facts
 /-
@@ -66,6 +68,33 @@ def insJson : InsertRes → Json
   | .notAllowed => .str "ChildNotAllowedError"
   | .crash => .str "crash:ValueError"
 
+def getNat (j : Json) : Nat := (j.getNat?).toOption.getD 0
+def getInt (j : Json) : Int := (j.getInt?).toOption.getD 0
+
+def getOp (j : Json) : Option Op :=
+  match j with
+  | .arr #[.str "append", p, c] => some (.append (getNat p) (getNat c))
+  | .arr #[.str "insert", p, c, i] => some (.insert (getNat p) (getNat c) (getInt i))
+  | .arr #[.str "remove", p, c] => some (.remove (getNat p) (getNat c))
+  | .arr #[.str "replace", p, o, n] => some (.replace (getNat p) (getNat o) (getNat n))
+  | .arr #[.str "shift", p, c, .str d, .bool sib] => some (.shift (getNat p) (getNat c) (if d == "L" then .left else .right) sib)
+  | .arr #[.str "clear", p] => some (.clear (getNat p))
+  | _ => none
+
+def outJson : Out → Json
+  | .none => .null
+  | .index i => (i : Json)
+  | .valueError => .str "ValueError"
+
+def natsJson (l : List Nat) : Json := .arr (l.map (fun (n : Nat) => (n : Json))).toArray
+
+def forestJson (n : Nat) (F : Forest) : Json :=
+  Json.mkObj [("kids", .arr ((List.range n).map (fun a => natsJson (F.kids a))).toArray),
+              ("parent", .arr ((List.range n).map (fun a => match F.parent a with | some p => (p : Json) | none => Json.null)).toArray)]
+
+def idsJson (l : List Tree) : Json := .arr (l.map (fun t => Json.str t.id)).toArray
+def optIdJson (o : Option Tree) : Json := match o with | some t => .str t.id | none => .null
+
 def handle (j : Json) : Json :=
   let T := Gen.tables
   let L := Lex.lexer
@@ -112,6 +141,23 @@ def handle (j : Json) : Json :=
                   ("ew", .str (verdictStr (Lex.classRange 180 s))), ("ns", .str (verdictStr (Lex.classRange 90 s))),
                   ("nn", .str (verdictStr (Lex.classNonNeg s))), ("time", .str (verdictStr (Lex.classTime s))),
                   ("yd", .str (verdictStr (Lex.classYearDate s))), ("uri", .str (verdictStr (Lex.classUri s)))]
+  | some "forest" =>
+      let n := getNat (fld j "n")
+      let names := getStrs (fld j "names")
+      let F0 : Forest := { name := fun a => names.getD a "", kids := fun _ => [], parent := fun _ => none }
+      let ops := match fld j "ops" with | .arr a => a.toList.filterMap getOp | _ => []
+      let (F, outs) := ops.foldl (fun (acc : Forest × List Json) op =>
+        let r := step acc.1 op
+        (r.1, acc.2 ++ [Json.mkObj [("out", outJson r.2), ("state", forestJson n r.1)]])) (F0, [])
+      Json.mkObj [("steps", .arr outs.toArray), ("final", forestJson n F)]
+  | some "query" =>
+      let t := getTree (fld j "tree")
+      let x := (optStr (fld j "x")).getD ""
+      let path := getStrs (fld j "path")
+      Json.mkObj [("find_child", optIdJson (findChild x t)), ("find_all_children", idsJson (findAllChildren x t)),
+                  ("find_descendant", optIdJson (findDescendant x t)), ("find_all_descendants", idsJson (findAllDescendants x t [])),
+                  ("find_single_by_path", optIdJson (findSingleByPath path t)), ("find_all_by_path", idsJson (findAllByPath path t)),
+                  ("child_index", match childIndex t x with | some k => (k : Json) | none => Json.null)]
   | some "isequal" =>
       Json.bool (isEqual (getTree (fld j "a")) (getTree (fld j "b")))
   | some "tables" =>
